@@ -68,6 +68,8 @@ def produce(ctx, model, route, rng):
   t = model["tab"]
   if route == "cli":
     res = routes.run_potable(["@IN", "@OUT"], emit.model_text(model, emit.Style(rng)))
+    if res["rc"] == 1 and "OverflowError" in res["err"]:
+      raise OverflowError("potable subprocess: math range error")
     if res["rc"] != 0 or not res["exists"]:
       ctx.violation("cli_failed", "potable rc=%s stderr=%s" % (res["rc"], res["err"][-500:]), what="cli", exc="rc%s" % res["rc"])
       return None
@@ -152,6 +154,13 @@ def run_case(case, ctx):
     return
   try:
     data = produce(ctx, model, route, rng)
+  except OverflowError as e:
+    if eamref.overflow_is_out_of_domain(ref.all_functions()):
+      ctx.count("out_of_domain")
+      return
+    et, fnn = exc_sig(e)
+    ctx.violation("exception", "valid model failed: %s: %s" % (et, e), what="exception", exc=et, func=fnn)
+    return
   except Exception as e:
     et, fnn = exc_sig(e)
     ctx.violation("exception", "valid model failed: %s: %s" % (et, e), what="exception", exc=et, func=fnn)
